@@ -77,3 +77,49 @@ mod tests {
         assert_eq!(r.into_iter().collect::<Vec<_>>(), vec![5]);
     }
 }
+
+#[derive(Debug, Clone, PartialEq, Eq)]
+pub struct Hunk {
+    pub old_start: u32,
+    pub old_count: u32,
+    pub new_start: u32,
+    pub new_count: u32,
+}
+
+/// hunks of a single-file `-U0` diff
+pub fn hunks_single_file(diff: &[u8]) -> Vec<Hunk> {
+    let mut v = Vec::new();
+    let lines: Vec<&[u8]> = diff.split(|b| *b == b'\n').collect();
+    let mut i = 0usize;
+    while i < lines.len() && !lines[i].starts_with(b"@@ -") {
+        i += 1;
+    }
+    while i < lines.len() {
+        let l = lines[i];
+        if !l.starts_with(b"@@ -") {
+            i += 1;
+            continue;
+        }
+        let s = String::from_utf8_lossy(l);
+        let mut it = s.split(' ');
+        it.next();
+        let old = it.next().and_then(|t| t.strip_prefix('-')).and_then(parse_range);
+        let new = it.next().and_then(|t| t.strip_prefix('+')).and_then(parse_range);
+        let (Some((os, oc)), Some((ns, nc))) = (old, new) else {
+            i += 1;
+            continue;
+        };
+        v.push(Hunk { old_start: os, old_count: oc, new_start: ns, new_count: nc });
+        i += 1;
+        let mut remaining = (oc + nc) as usize;
+        while i < lines.len() && remaining > 0 {
+            if lines[i].starts_with(b"\\") {
+                i += 1;
+                continue;
+            }
+            remaining -= 1;
+            i += 1;
+        }
+    }
+    v
+}
